@@ -122,6 +122,7 @@ func installHook() {
 	hook.ClockOffset = clockOffset0
 	sMainG = getg()
 	hook.SleepFunc = sleepHook
+	hook.IsTask = isTaskHook
 	hook.Hook = yieldHook
 }
 
